@@ -6,7 +6,7 @@
      spec_ok  : the decidable specification, evaluated on the IMPLEMENTATION's answer
    Nothing here is proved; it is extracted to OCaml and run by the harness. *)
 From Coq Require Import List Arith NArith Bool.
-From MR Require Import Lib.Bytes Lib.Val Model.Index Model.Dag Model.Git Model.Tracking.
+From MR Require Import Lib.Bytes Lib.Val Model.Index Model.Dag Model.Git Model.Tracking Model.CfgFile.
 Import ListNotations.
 Open Scope nat_scope.
 
@@ -376,6 +376,24 @@ Definition check_crash (v : val) : val :=
     VL [eB (2 <=? M); before; eB agree; eB (same_ptr && others_same)]
   end.
 
+
+(* ---------- C17 / C18: configuration file loading ---------- *)
+(* files are content ids (distinct bytes, distinct ids; sha = identity on ids); the harness supplies, for the
+   file being loaded, whether it parses as a Config, whether it has a `source` and which checksum it embeds *)
+Definition cfgvalue := (bool * option N)%type.
+Definition check_cfgfile (v : val) : val :=
+  let parses := dB (dNth v 0) in
+  let has_src := dB (dNth v 1) in
+  let sum := dOpt dN (dNth v 2) in
+  let src := dOpt dN (dNth v 3) in
+  let gen := dN (dNth v 4) in
+  let lock := dOpt dN (dNth v 5) in
+  let impl_ok := dB (dNth v 6) in
+  let parse (b : list N) : option cfgvalue := if parses then Some (has_src, sum) else None in
+  let m := usable N N cfgvalue N.eqb (fun b => hd 0%N b) parse snd fst (fun b => b)
+             (option_map (fun x => [x]) src) [gen] lock in
+  VL [eB true; eB m; eB (Bool.eqb m impl_ok); eB (Bool.eqb m impl_ok)].
+
 (* ---------- dispatch ---------- *)
 From Coq Require Import String.
 Open Scope string_scope.
@@ -389,4 +407,5 @@ Definition dispatch (name : str) (v : val) : val :=
   else if str_eqb name (bs "cp_pending") then check_cp_pending v
   else if str_eqb name (bs "tracking") then check_tracking v
   else if str_eqb name (bs "crash") then check_crash v
+  else if str_eqb name (bs "cfgfile") then check_cfgfile v
   else VL [].
